@@ -223,10 +223,14 @@ def dict_unchanged(ex, st, d):
 
 @specfunc('list_unchanged')
 def list_unchanged(ex, st, lst):
-    """same length and same items as in the pre-state (lst: list of references)"""
+    """same length and, position by position, the same items as in the pre-state (lst: list of references)"""
     pre = ex.spec_ctx['pre']
-    a = lst.term
-    return SV(z3.And(ex.H(st, 'Ll')[a] == ex.H(pre, 'Ll')[a], ex.H(st, 'La.R')[a] == ex.H(pre, 'La.R')[a]), BOOL)
+    a = ex.term(lst, 'R')
+    k = z3.FreshConst(IntS, 'lu')
+    n0 = ex.H(pre, 'Ll')[a]
+    return SV(z3.And(ex.H(st, 'Ll')[a] == n0,
+                     z3.ForAll([k], z3.Implies(z3.And(0 <= k, k < n0),
+                                               ex.H(st, 'La.R')[a][k] == ex.H(pre, 'La.R')[a][k]))), BOOL)
 
 
 @specfunc('is_strict')
@@ -309,3 +313,35 @@ def is_fresh(ex, st, x):
     """x was allocated during the call (postconditions only)"""
     pre = ex.spec_ctx['pre']
     return SV(ex.term(x, 'R') >= ex.H(pre, 'next'), BOOL)
+
+
+@specfunc('first_pos')
+def first_pos(ex, st, lst, x):
+    """index of the first occurrence of x in the reference list lst (in the state the expression is evaluated in),
+    or -1.  A fresh function application whose defining facts are added as hypotheses (they are satisfiable for
+    every list: the position exists or it does not)."""
+    a = ex.term(lst, 'R')
+    n = z3.If(a == 0, 0, ex.H(st, 'Ll')[a])
+    arr = ex.H(st, 'La.R')[a]
+    xt = ex.term(x, 'R')
+    f = ex.uf('first_pos', z3.ArraySort(IntS, IntS), IntS, IntS, IntS)
+    p = f(arr, n, xt)
+    k = z3.FreshConst(IntS, 'fk')
+    facts = [p >= -1, p < z3.If(n > 0, n, 0) + 0, z3.Implies(n <= 0, p == -1),
+             z3.Implies(p >= 0, z3.And(arr[p] == xt, z3.ForAll([k], z3.Implies(z3.And(0 <= k, k < p), arr[k] != xt)))),
+             z3.Implies(p == -1, z3.ForAll([k], z3.Implies(z3.And(0 <= k, k < n), arr[k] != xt)))]
+    if getattr(ex, 'spec_facts', None) is not None:
+        ex.spec_facts.extend(facts)
+    return SV(p, INT)
+
+
+@specfunc('list_at')
+def list_at(ex, st, lst, i):
+    """item i of a reference list given by its address (0 = absent list)"""
+    return SV(ex.H(st, 'La.R')[ex.term(lst, 'R')][ex.term(i, 'I')], ObjT('Element'))
+
+
+@specfunc('list_len')
+def list_len(ex, st, lst):
+    a = ex.term(lst, 'R')
+    return SV(z3.If(a == 0, 0, ex.H(st, 'Ll')[a]), INT)
